@@ -154,9 +154,11 @@ def check_property(pid, tier, seed, args, t0):
         if l in open_known:
             known_hits.append((l, open_known[l]))
             continue
-        if s == 'refuted':
+        weak = all(o.get('weak_path') or o.get('uncertain_path') for o in by_label[l]
+                   if o['status'] != 'discharged')
+        if s == 'refuted' and not weak:
             violations.append((l, rep, 'refuted: counter-model found'))
-        elif l in expected:
+        elif l in expected and not weak:
             violations.append((l, rep, 'regression: obligation was discharged on the baseline tree '
                                'and is no longer provable (%s)' % rep.get('reason', '?')))
         else:
